@@ -186,3 +186,45 @@ Proof.
   - rewrite map_map. cbn [fst]. apply heads_only_nodup.
   - intros k f v H. apply S in H. destruct H as [H _]. unfold buf_get. eapply kv_get_firstn. exact H.
 Qed.
+
+(* ---------- what a value write does to the histories ---------- *)
+Lemma try_swap_history l : forall k v room l' k2, try_swap l k v room = Some l' ->
+  map snd (filter (fun e => bytes_eqb (fst e) k2) l') =
+    if bytes_eqb k k2 then v :: tl (map snd (filter (fun e => bytes_eqb (fst e) k2) l))
+    else map snd (filter (fun e => bytes_eqb (fst e) k2) l).
+Proof.
+  induction l as [|[k' v'] l IH]; intros k v room l' k2 H; cbn [try_swap] in H; [discriminate|].
+  destruct (bytes_eqb k' k) eqn:E.
+  - destruct room; [discriminate|].
+    destruct (negb (is_tomb v') && Nat.eqb (length v') (length v)); [|discriminate].
+    injection H as <-. apply bytes_eqb_eq in E; subst k'. cbn [filter fst].
+    destruct (bytes_eqb k k2); reflexivity.
+  - destruct (try_swap l k v (pred room)) eqn:T; [|discriminate]. injection H as <-.
+    cbn [filter fst]. specialize (IH _ _ _ _ k2 T).
+    destruct (bytes_eqb k' k2) eqn:E2; cbn [map snd].
+    + apply bytes_eqb_eq in E2; subst k2. rewrite eqb_sym, E in IH |- *. rewrite IH. reflexivity.
+    + exact IH.
+Qed.
+
+Lemma C07_history_write_proof : forall st b k v k2,
+  x_history st k2 = b_history (x_b st) k2 /\
+  (k2 <> k -> b_history (write true b k v) k2 = b_history b k2) /\
+  (b_history (write true b k v) k = v :: b_history b k \/
+   (b_history (write true b k v) k = v :: tl (b_history b k) /\
+    exists o, hd_error (b_history b k) = Some o /\ length o = length v /\ is_tomb o = false)).
+Proof.
+  intros st b k v k2. split; [reflexivity|]. unfold b_history, write.
+  destruct (try_swap (b_log b) k v (room_of b)) as [l'|] eqn:T; cbn [b_log].
+  - split.
+    + intros Hn. rewrite (try_swap_history _ _ _ _ _ k2 T). rewrite eqb_neq by (intros E; apply Hn; symmetry; exact E). reflexivity.
+    + right. split; [rewrite (try_swap_history _ _ _ _ _ k T), eqb_refl; reflexivity|].
+      clear -T. revert T. generalize (room_of b). revert l'. induction (b_log b) as [|[k' v'] l IH]; intros l' room T; cbn [try_swap] in T; [discriminate|].
+      cbn [filter fst]. destruct (bytes_eqb k' k) eqn:E.
+      * destruct room; [discriminate|]. destruct (negb (is_tomb v') && Nat.eqb (length v') (length v)) eqn:B; [|discriminate].
+        apply Bool.andb_true_iff in B. destruct B as [B1 B2]. apply Nat.eqb_eq in B2. apply Bool.negb_true_iff in B1.
+        exists v'. cbn. repeat split; assumption.
+      * destruct (try_swap l k v (pred room)) eqn:T2; [|discriminate]. eapply IH. exact T2.
+  - split.
+    + intros Hn. cbn [filter fst]. rewrite eqb_neq by (intros E; apply Hn; symmetry; exact E). reflexivity.
+    + left. cbn [filter fst]. rewrite eqb_refl. reflexivity.
+Qed.
